@@ -9,7 +9,7 @@ DESIGN_REF = "DESIGN.md 4, 7 (C01)"
 BUDGETS = {"quick": 35.0, "thorough": 900.0}
 CHUNK = 4
 MINIMISE_BUDGET = 200
-ORACLES = ("C01.",)
+ORACLES = ("C01.", "C09.value")
 RULE = (
     "seeded programs (3-8 functions over 1-3 modules of a package of depth 1-3: helpers, data functions, kept calls with "
     "literal / run-time / default / keyword arguments, tracked variables, import forms, higher-order references) driven "
@@ -33,8 +33,17 @@ ASSUMPTIONS = [
 PROBES = ["cache_hit_after_edit", "revert", "all_cached", "location_evaluated:package", "location_evaluated:main",
           "location_evaluated:notebook", "notebook_redefinition"]
 
+def _feat(cfg, avoid=()):
+    f = gen.swarm_feat(cfg, avoid)
+    # some programs also read kept paths back with dds.load (C09 owns the load-specific clauses; a wrong VALUE of
+    # an evaluation that loads is reported here as well)
+    f["loads"] = cfg.random() < 0.2
+    f["p_load_never"] = 0.0
+    return f
+
+
 PROFILE = {
-    "feat": gen.swarm_feat,
+    "feat": _feat,
     "edits": hist.ALL_EDITS,
     "n": (3, 10),
     "p_restart": 0.75,
@@ -50,7 +59,15 @@ def gen_case(streams, tier, avoid):
     prof["avoid"] = avoid
     if tier == "thorough":
         prof["n"] = (3, 14)
-    return hist.gen_history(streams, tier, prof)
+    case = hist.gen_history(streams, tier, prof)
+    if case["feat"].get("loads"):
+        # the no-op store cannot serve dds.load (documented): programs with loads run on the other store kinds
+        if case["store"]["kind"] == "noop":
+            case["store"] = {"kind": "local"}
+        for op in case["ops"]:
+            if op["op"] == "switch_store" and op["store"]["kind"] == "noop":
+                op["store"] = {"kind": "memory"}
+    return case
 
 
 def run_case(case):
